@@ -123,9 +123,21 @@ def esc(text):
         text.replace("\\", "\\\\").replace('"', '\\"').replace("\n", "\\n")
 
 
+# type expressions for the "typed" layout: annotations are erased, the program must behave exactly as without them
+TYPES = ["any", "number", "string", "bool", "nil", "number | nil", "string | number | nil", "number[]", "any[][]", "(number) -> number",
+         "(any, any) -> any", "List<number>", "Map<string, number>", "Error", "number & any"]
+# between the bars of a lambda a `|` would end the parameter list, and a function type is not accepted there
+SIMPLE_TYPES = ["any", "number", "string", "bool", "nil", "number[]", "Error", "any[][]"]      # no generics there either
+
+
+def type_of(name, salt=0, simple=False):
+    pool = SIMPLE_TYPES if simple else TYPES
+    return pool[(sum(ord(c) for c in name) * 31 + salt) % len(pool)]
+
+
 class Printer:
     def __init__(self, layout="canon"):
-        self.layout = layout      # canon (parens around every compound operand) | min (precedence based)
+        self.layout = layout      # canon (parens around every compound operand) | min (precedence based) | pad | typed
         self.lines = []
         self.cur = ""
         self.ind = 0
@@ -217,6 +229,7 @@ class Printer:
                     out += "${" + self.expr(part) + "}"
             return out + '"'
         if k == "lambda":
+            # no annotations inside the bars of a lambda: the parser reads the closing `|` after a type as a union
             params = ", ".join(p["s"] for p in n["kids"][:-1])
             for p in n["kids"][:-1]:
                 self.mark(p)
@@ -295,7 +308,9 @@ class Printer:
         self.mark(n)
         k = n["k"]
         if k == "exprst": self.line(self.expr(n["kids"][0]) + ";")
-        elif k == "let": self.line(f"let {n['s']} = {self.expr(n['kids'][0])};")
+        elif k == "let":
+            ann = f": {type_of(n['s'])}" if self.layout == "typed" and (n.get("_id", 0) % 3) else ""
+            self.line(f"let {n['s']}{ann} = {self.expr(n['kids'][0])};")
         elif k == "return1": self.line(f"return {self.expr(n['kids'][0])};")
         elif k == "return0": self.line("return;")
         elif k == "raise": self.line(f"raise {self.expr(n['kids'][0])};")
@@ -318,9 +333,11 @@ class Printer:
         elif k == "fn":
             for p in n["kids"][:-1]:
                 self.mark(p)
-            params = ", ".join(p["s"] for p in n["kids"][:-1])
+            typed = self.layout == "typed"
+            params = ", ".join(p["s"] + (f": {type_of(p['s'], 1)}" if typed and (p.get("_id", 0) % 4) else "") for p in n["kids"][:-1])
             head = {"fun": "fn ", "method": "", "init": "", "static": "static "}[n["s2"]]
-            self.block(n["kids"][-1], f"{head}{n['s']}({params})")
+            ret = f" -> {type_of(n['s'], 2)}" if typed and n["s2"] != "init" and (n.get("_id", 0) % 2) else ""
+            self.block(n["kids"][-1], f"{head}{n['s']}({params}){ret}")
             self.nl()
         elif k == "class":
             sup = ""
